@@ -394,6 +394,12 @@ func xtalkInstances(tier string) []Instance {
 			}
 		}
 	}
+	// concurrent quorum calls that each need every node of their (overlapping) configuration, and an RPC to the shared node
+	for _, a := range []string{"QuorumCall", "QuorumCallAsync"} {
+		for _, b := range []string{"QuorumCall", "QuorumCallAsync", "GRPCCall"} {
+			add(1, []xCall{mk(a, []int{1, 2}, 2, false)}, []xCall{mk(b, []int{2, 3}, 2, false)})
+		}
+	}
 	// back-to-back calls of one thread reuse the same nodes while a concurrent thread is active;
 	// threshold 1 of 2 leaves one reply of each call to arrive after the call returned
 	for _, a := range []string{"QuorumCall", "QuorumCallAsync", "GRPCCall"} {
